@@ -160,10 +160,11 @@ def pObj (s : Sexp) : Option Obj :=
         | _ => (pBackend d).map some
       some (.ing ⟨ns, name, dflt, ← rules.args.mapM fun r => r.args.mapM pBackend⟩)
   | .list [.atom "route", .atom ns, .atom name, .list [.atom "to", .atom k, .atom n], alt, .list [.atom "tport", tn, tnm]] => do
+      let und (x : String) : String := if x == "-" then "" else x
       let alts ← alt.args.mapM fun a => match a with
-        | .list [.atom k, .atom n] => some (k, n)
+        | .list [.atom k, .atom n] => some (und k, n)
         | _ => none
-      some (.route ⟨ns, name, k, n, alts, ← pOptInt tn, ← pOptStr tnm⟩)
+      some (.route ⟨ns, name, und k, n, alts, ← pOptInt tn, ← pOptStr tnm⟩)
   | _ => none
 
 /-- `(world OBJ…)` -/
